@@ -54,7 +54,12 @@ def state_diff(MC, F, occ, exact=True):
     if MC.occupied_set != set(i for i, o in enumerate(occ) if o == 1): return "occupied_set is not {i: occ_i = 1}"
     if MC.unoccupied_set != set(i for i, o in enumerate(occ) if o == 0): return "unoccupied_set is not {i: occ_i = 0}"
     e1, e2 = MC.E(), F.E()
-    if e1 != e2: return "E() = %r differs from fresh E() = %r" % (e1, e2)
+    if not mcsys.eqf(e1, e2): return "E() = %r differs from fresh E() = %r" % (e1, e2)
+    if getattr(MC, "_verif_kind", "float") != "float":
+        ex = mcsys.exact_E(MC, scratch_counts(MC, occ))
+        if not mcsys.consistent(e1, ex):
+            return ("E() = %r but the interactions that are switched on sum to %s (a switched-off interaction contributes nothing, "
+                    "whatever its value)" % (e1, "inf" if abs(ex) >= mcsys.INF_Z // 2 else ex))
     if MC.jumps is not None:
         t1, t2 = MC.transitions(), F.transitions()
         if t1[0] != t2[0] or not np.array_equal(t1[1], t2[1]): return "transitions() differ from a fresh start"
@@ -82,7 +87,7 @@ def query_diff(MC, F, probes):
     for a, b in probes:
         for rep in (0, 1):
             d1, d2 = MC.deltaE_trial(a, b), F.deltaE_trial(a, b)
-            if d1 != d2:
+            if not mcsys.eqf(d1, d2):
                 return "deltaE_trial(%s, %s) = %r but a sampler freshly started on the same occupation gives %r" % (a, b, d1, d2)
     return None
 
@@ -128,6 +133,29 @@ def gen_args(rng, S, occ, kind=None):
     return [], [], "empty"
 
 
+def trial_ok(MC, dE, occ, occ2):
+    """is the reported trial energy change the change of the energy-from-the-definition (exact, extended values)?"""
+    ne = MC.Nenergy
+    cb, ca = scratch_counts(MC, occ), scratch_counts(MC, occ2)
+    Eb, Ea = mcsys.exact_E(MC, cb), mcsys.exact_E(MC, ca)
+    d = Ea - Eb
+    big = mcsys.INF_Z // 2
+    dE = float(dE)
+    changed = (cb[:ne] == 0) != (ca[:ne] == 0)
+    huge_changed = bool(np.any(np.abs(np.asarray(MC.interactvalue[:ne], dtype=float)[changed]) >= 1e299))
+    def show(x): return "inf" if abs(x) >= big else x
+    if dE != dE:            # inf - inf: an infinite interaction goes off while another comes on; the difference of two infinite energies
+        ok = abs(Eb) >= big and abs(Ea) >= big
+    elif abs(d) >= big:
+        ok = np.isinf(dE) and (dE > 0) == (d > 0)
+    elif huge_changed:
+        ok = np.isfinite(dE) and abs(dE - float(d) / mcsys.HUGE_Z * 1e300) <= 1e-9 * 1e300 * max(1., abs(d) / mcsys.HUGE_Z)
+    else:
+        try: ok = np.isfinite(dE) and mcsys.intval(dE) == d
+        except AssertionError: ok = False
+    return ok, show(Eb), show(Ea)
+
+
 class Violation(Exception):
     def __init__(self, what, key, detail):
         Exception.__init__(self, what)
@@ -155,12 +183,15 @@ def do_update(ck, S, MC, occ, a, b, kind, hist, exact=True, scale=1.0, probes=()
                         dict(args=[list(map(int, a)), list(map(int, b))], kind=kind))
     E1 = MC.E()
     if proper(a, b):
-        ok = (dE == E1 - E0) if exact else (abs(dE - (E1 - E0)) <= FTOL * scale)
+        if exact and getattr(MC, "_verif_kind", "float") != "float":
+            ok, E0, E1 = trial_ok(MC, dE, occ, occ2)
+        else:
+            ok = (dE == E1 - E0) if exact else (abs(dE - (E1 - E0)) <= FTOL * scale)
         if not ok:
-            raise Violation("deltaE_trial%s = %r but E(after) - E(before) = %r" % ((list(map(int, a)), list(map(int, b))), dE, E1 - E0),
-                            "c33-deltaE-mismatch", dict(args=[list(map(int, a)), list(map(int, b))], dE=float(dE), E0=float(E0), E1=float(E1)))
+            raise Violation("deltaE_trial%s = %r but E(after) = %s, E(before) = %s" % ((list(map(int, a)), list(map(int, b))), dE, E1, E0),
+                            "c33-deltaE-mismatch", dict(args=[list(map(int, a)), list(map(int, b))], dE=float(dE), E0=str(E0), E1=str(E1)))
         # the fresh sampler predicts the same trial changes
-    return occ2, (dE != 0 or not np.array_equal(occ, occ2))
+    return occ2, bool(dE != 0 or not np.array_equal(occ, occ2))
 
 
 def report(ck, S, v, occ0, hist):
@@ -251,8 +282,12 @@ def random_history(ck, rng, S, nops, exact=True):
 # ---------------------------------------------------------------------------------------------
 # correspondence with the model inside Coq
 def obs_term(MC):
-    return "(OB %s %s %s %s)" % (mcsys.zl(MC.clustercount), mcsys.zl(sorted(MC.occupied_set)), mcsys.zl(sorted(MC.unoccupied_set)),
-                                 mcsys.zz(mcsys.intval(MC.E(), "E()")))
+    # E(): the exact (coded) energy of the interactions that are on, after checking that the float E() represents it
+    ex = mcsys.exact_E(MC, MC.clustercount)
+    if not mcsys.consistent(MC.E(), ex):
+        raise Violation("E() = %r but the interactions that are switched on sum to %s" % (MC.E(), "inf" if abs(ex) >= mcsys.INF_Z // 2 else ex),
+                        "c33-energy", dict(occ=np.asarray(MC.occ).tolist()))
+    return "(OB %s %s %s %s)" % (mcsys.zl(MC.clustercount), mcsys.zl(sorted(MC.occupied_set)), mcsys.zl(sorted(MC.unoccupied_set)), mcsys.zz(ex))
 
 
 def trans_term(MC):
@@ -293,7 +328,17 @@ def trace(ck, rng, S, nev, exhaustive_tiny=False):
     def trial(a, b):
         try:
             dE = MC.deltaE_trial(a, b)
-            ev.append("(ETrial (K:=Zring) (NL %s) (NL %s) (Some %s))" % (mcsys.zl(a), mcsys.zl(b), mcsys.zz(mcsys.intval(dE, "deltaE"))))
+            if np.isfinite(dE):
+                ev.append("(ETrial (K:=Zring) (NL %s) (NL %s) (Some %s))" % (mcsys.zl(a), mcsys.zl(b), mcsys.zz(mcsys.intval(dE, "deltaE"))))
+            elif proper(a, b):
+                # infinite / undefined (inf - inf) change: checked against the definition here, the model gets the exact coded value
+                occ1 = np.asarray(MC.occ); occ2 = apply_to_occ(occ1, a, b)
+                ok, Eb, Ea = trial_ok(MC, dE, occ1, occ2)
+                if not ok:
+                    raise Violation("deltaE_trial(%s, %s) = %r but E(after) = %s, E(before) = %s" % (a, b, dE, Ea, Eb), "c33-deltaE-mismatch",
+                                    dict(args=[list(map(int, a)), list(map(int, b))], occ=occ1.tolist()))
+                d = mcsys.exact_E(MC, scratch_counts(MC, occ2)) - mcsys.exact_E(MC, scratch_counts(MC, occ1))
+                ev.append("(ETrial (K:=Zring) (NL %s) (NL %s) (Some %s))" % (mcsys.zl(a), mcsys.zl(b), mcsys.zz(d)))
         except ValueError:
             ev.append("(ETrial (K:=Zring) (NL %s) (NL %s) None)" % (mcsys.zl(a), mcsys.zl(b)))
         except Exception as e:
@@ -389,7 +434,8 @@ def run(ck):
     ck.rule = ("systems: crystal pool (chain, ladder, sc, fcc, bcc, hcp, diamond, multi-site cells, B2/chain with spectators, two mobile "
                "species) x superlattice (incl. non-diagonal and self-wrapping 1x1x1) x cluster cutoff/order x {plain, jump network "
                "+ TS clusters, vacancy + jump network}; always included: samplers with mobile sites that carry no interaction (sublattice excluded "
-               "from the expansion, empty expansion, clusters switched off by spectators); integer energies. Direct: all occupations x all single-site updates "
+               "from the expansion, empty expansion, clusters switched off by spectators) and samplers with extended interaction values (+inf hard-core "
+               "exclusion, 0, 1e300) judged against the exact energy of the interactions that are on (nan/inf aware); integer energies. Direct: all occupations x all single-site updates "
                "+ swaps + sampled multi-site/sloppy updates (each undone again) on supercells with <= 8 (quick) / 11 (thorough) "
                "free sites; random histories (start, proper, duplicate, overlapping, no-op arguments) on larger ones. "
                "Correspondence: the same kind of histories (plus rejected starts, vacancy arguments, transitions) replayed by "
@@ -411,8 +457,8 @@ def run(ck):
             for sup in mcsys.SUPERS[name]:
                 plan.append((name, setup, sup))
     rng.shuffle(plan)
-    budget_ex = ck.n(9, 60)
-    budget_rand = ck.n(10, 70)
+    budget_ex = ck.n(6, 45)
+    budget_rand = ck.n(7, 50)
     # always: samplers in which some mobile sites carry NO interaction (second mobile sublattice excluded from the expansion,
     # empty expansion, clusters switched off by the spectators) -- update() must keep occ, both sets and the counts in step there too
     always = []
@@ -427,6 +473,23 @@ def run(ck):
             else: random_history(ck, rng, S, ck.n(150, 600))
             random_history(ck, rng, S, ck.n(60, 200))
     ck.extra["zero_interaction_systems_always_run"] = len(always)
+    # always: extended interaction values -- hard-core exclusion (+inf), 0, and (direct evaluator only) 1e300 -- on the clusters with
+    # two or more mobile sites: a switched-off interaction contributes nothing whatever its value
+    extsys = [("chain", (2.1, 3, 1.1), (6, 1, 1)), ("fcc", (0.8, 3, 0.8), (2, 2, 2)), ("ladder", (1.6, 3, 1.2), (3, 2, 1)),
+              ("chain3", (0.75, 3, 0.45), (2, 1, 1))]
+    if not ck.quick: extsys += [("sc", (1.5, 3, 1.01), (2, 2, 2)), ("hcp", (1.01, 3, 1.01), (2, 2, 1)), ("ladder", (1.6, 3, 1.2), (3, 3, 1))]
+    if not ck.quick: extsys += [("bcc", (1.01, 3, 0.9), (2, 2, 2)), ("diamond", (0.72, 3, 0.45), (2, 2, 1)), ("chain", (2.1, 3, 1.1), (10, 1, 1))]
+    next_ = 0
+    for k, (name, setup, sup) in enumerate(extsys):
+        for kind in (("ext", "huge") if (k % 2 == 0 or not ck.quick) else ("ext",)):
+            S = mcsys.build(rng, name, setup, sup, vacancy=(k + (kind == "huge")) % 2 == 1, jumps=False, vals=kind)
+            if S is None: continue
+            next_ += 1
+            if kind == "ext": always.append(S)
+            nfree = S.Nsites - (S.vacancy >= 0)
+            if nfree <= maxfree: exhaustive(ck, rng, S, max_multi=ck.n(3, 8) if nfree > 6 else 12)
+            random_history(ck, rng, S, ck.n(80, 400))
+    ck.extra["extended_value_systems_always_run"] = next_
     for name, setup, sup in plan:
         if ex_done >= budget_ex and nsys >= budget_ex + budget_rand: break
         vac, jn, ts = rng.choice(combos)
@@ -465,11 +528,11 @@ def run(ck):
     for S in always:
         if len(S.MC.interactvalue) > 400: continue
         try:
-            items.append((S, trace(ck, rng, S, ck.n(80, 200)), "random"))
+            items.append((S, trace(ck, rng, S, ck.n(40, 200)), "random"))
             if S.Nsites <= 6: items.append((S, trace(ck, rng, S, 0, exhaustive_tiny=True), "exhaustive"))
         except Violation as v:
             report(ck, S, v, [], [])
-    ntr = ck.n(10, 40) + len(items)
+    ntr = ck.n(5, 40) + len(items)
     tries = 0
     while sum(1 for it in items if it[2] == "random") < ntr and tries < 10 * ntr:
         tries += 1
